@@ -105,7 +105,7 @@ class Server:
         shutil.rmtree(self.dir, ignore_errors=True)
 
 
-def run_scenario(server, steps, quiet_s=0.6, max_s=20.0):
+def run_scenario(server, steps, quiet_s=0.6, max_s=20.0, tail_s=12.0):
     """steps: list of (delay_seconds_before_send, request dict).  Returns the
     event list [("send", request) | ("recv", message dict)] in client order and
     whether the connection ended by itself."""
@@ -152,8 +152,14 @@ def run_scenario(server, steps, quiet_s=0.6, max_s=20.0):
                             break
                         buf = buf[j:]
                         events.append(("recv", v))
-            if idx >= len(steps) and time.time() - last_activity > quiet_s:
-                break
+            if idx >= len(steps):
+                # every request that was sent has had its final (status) message, and the line is quiet
+                sent = {text(r.get("id", b"")) for k, r in events if k == "send"}
+                final = {text(m.get("id", b"")) for k, m in events if k == "recv" and "status" in m}
+                if sent <= final and time.time() - last_activity > quiet_s:
+                    break
+                if time.time() - last_activity > tail_s:
+                    break
             if time.time() - t0 > max_s:
                 break
     finally:
